@@ -20,7 +20,7 @@ RULE = ("cases: 1-D (axis=None), 2-D on both axes, N-D flattened, 3-D batches wi
         "the 2-D result of slice b); ties, negative entries, all-zero rows and columns, up to 60 distinct levels, values up to 1e6. "
         "non-trivial: >=2 distinct non-zero keys; distinct by digest of (method, axis, array)"
         ' Also: several compressions of one array object (the input must be unchanged), up to 63 levels judged (top weight < 2**63), neighbours above 2**53.')
-BUDGET = {"quick": (12, 1000, 90), "thorough": (16, 8000, 1200)}
+BUDGET = {"quick": (12, 3000, 90), "thorough": (16, 8000, 1200)}
 METHODS = ["shadow", "prio", "rank", "first", "last", "min", "max"]
 PYTEST = True     # thorough tier also runs the repository's own tests under these monitors
 MANDATORY = ["judged:" + m for m in METHODS] + ["judged:input-unchanged"] + ["count:ndim:1", "count:ndim:2:axis0", "count:ndim:2:axis1", "count:ndim:3:axis0",
